@@ -23,11 +23,12 @@ VARIABLES l,
           stores,    \* key -> sequence of store records (newest last)
           pf,        \* set of prefetch keys reserved
           fwd,       \* lname -> set of client addresses forwarded for (rt.fwd)
-          seen       \* tok -> the shape of the first response that carried it
-tvars == <<l, cfg, q, answered, upsent, upq, stores, pf, fwd, seen>>
+          seen,      \* tok -> the shape of the first response that carried it
+          outst      \* <<name, cls, typ>> -> upstream exchanges received and not yet answered
+tvars == <<l, cfg, q, answered, upsent, upq, stores, pf, fwd, seen, outst>>
 
 NoCfg == [rules |-> <<>>, sets |-> <<>>, ecs |-> FALSE, cache |-> FALSE, maxttl |-> 0, markers |-> <<>>]
-Init == l = 1 /\ cfg = NoCfg /\ q = <<>> /\ answered = {} /\ upsent = <<>> /\ upq = {} /\ stores = <<>> /\ pf = {} /\ fwd = <<>> /\ seen = <<>> /\ InitMark
+Init == l = 1 /\ cfg = NoCfg /\ q = <<>> /\ answered = {} /\ upsent = <<>> /\ upq = {} /\ stores = <<>> /\ pf = {} /\ fwd = <<>> /\ seen = <<>> /\ outst = <<>> /\ InitMark
 IsEvent(e) == l <= Len(Trace) /\ Trace[l].ev = e /\ l' = l + 1 /\ Mark(l)
 With(f, k, v) == [x \in DOMAIN f \cup {k} |-> IF x = k THEN v ELSE f[x]]
 
@@ -39,14 +40,14 @@ Cfg == /\ IsEvent("cfg")
                   sets |-> [t \in {ev.settags[i] : i \in 1..Len(ev.settags)} |->
                               SetEntries(ev.setlines[CHOOSE i \in 1..Len(ev.settags) : ev.settags[i] = t])],
                   ecs |-> ev.ecs, cache |-> ev.cache, maxttl |-> ev.maxttl, markers |-> ev.markers]
-       /\ q' = <<>> /\ answered' = {} /\ upsent' = <<>> /\ upq' = {} /\ stores' = <<>> /\ pf' = {} /\ fwd' = <<>> /\ seen' = <<>>
+       /\ q' = <<>> /\ answered' = {} /\ upsent' = <<>> /\ upq' = {} /\ stores' = <<>> /\ pf' = {} /\ fwd' = <<>> /\ seen' = <<>> /\ outst' = <<>>
 
 Dec(n) == Decide(cfg.rules, cfg.sets, n)
 
 \* ---------------------------------------------------------------- clients
 ClSend == /\ IsEvent("cl.send")
           /\ q' = With(q, Trace[l].qn, Trace[l])
-          /\ UNCHANGED <<cfg, answered, upsent, upq, stores, pf, fwd, seen>>
+          /\ UNCHANGED <<cfg, answered, upsent, upq, stores, pf, fwd, seen, outst>>
 
 Supported(s) == ~s.qr /\ s.rd /\ s.opcode = 0 /\ s.nq = 1
 
@@ -120,10 +121,23 @@ AllStores == UNION {{stores[k][i] : i \in 1..Len(stores[k])} : k \in DOMAIN stor
 \* a completed store for this request's key with more than 1 s of lifetime left and outside the refresh window
 MustHitCandidates(s) == {st \in AllStores :
         /\ st.name = LowerName(s.name) /\ st.cls = s.cls /\ st.typ = s.typ /\ st.mark = Group(s.src) /\ ~st.tc
+        /\ st.tok # 0      \* record-less answers carry no token: a hit cannot be told from a fresh answer by the client
         /\ st.stored + 50 < s.t /\ s.t + 1000 + 50 < st.expire
         /\ 4 * (st.expire - s.t - 50) > (st.expire - st.stored)}
 MustHitOk(s, ev) == (cfg.cache /\ Supported(s) /\ MustHitCandidates(s) # {}) =>
         (RespTok(ev) # 0 /\ RespTok(ev) \in DOMAIN upsent /\ upsent[RespTok(ev)].t < s.t)
+
+KeyStores(s) == {st \in AllStores : st.name = LowerName(s.name) /\ st.cls = s.cls /\ st.typ = s.typ /\ st.mark = Group(s.src) /\ ~st.tc}
+LivePositive(s) == {st \in KeyStores(s) : st.rcode = 0 /\ st.stored + 50 < s.t /\ s.t + 1000 + 50 < st.expire}
+FromCache(s, ev) == RespTok(ev) # 0 /\ RespTok(ev) \in DOMAIN upsent /\ upsent[RespTok(ev)].t < s.t
+\* C08: truncated or failed exchanges are never cached; an error never displaces a live positive entry
+NoBadCacheOk(s, ev) == FromCache(s, ev) => (~upsent[RespTok(ev)].tc /\ upsent[RespTok(ev)].kind = "reply")
+NoDisplaceOk(s, ev) == (cfg.cache /\ Supported(s) /\ LivePositive(s) # {}) => ev.rcode = 0
+\* C19: a hit is answered at once; after a successful refresh hits see the renewed entry
+NoDelayOk(s, ev) == FromCache(s, ev) => ev.t - s.t <= Slack
+RenewedOk(s, ev) == FromCache(s, ev) =>
+    LET mine == StoreOfTok(stores, RespTok(ev)) IN
+    mine.found => ~\E st \in KeyStores(s) : st.rcode = 0 /\ st.stored > mine.stored /\ st.stored + 50 < s.t /\ s.t + 50 < st.expire
 
 ClRecv == /\ IsEvent("cl.recv")
           /\ LET ev == Trace[l]  s == q[ev.qn] IN
@@ -137,17 +151,21 @@ ClRecv == /\ IsEvent("cl.recv")
                                \cup (IF TtlOk(s, ev) THEN {} ELSE {"Inv_C08_Ttl"})
                                \cup (IF ExpiryOk(s, ev) THEN {} ELSE {"Inv_C08_Expiry"})
                                \cup (IF UnchangedOk(ev) THEN {} ELSE {"Inv_C07_Unchanged"})
-                               \cup (IF MustHitOk(s, ev) THEN {} ELSE {"Inv_C07_MustHit"})))
+                               \cup (IF MustHitOk(s, ev) THEN {} ELSE {"Inv_C07_MustHit"})
+                               \cup (IF NoBadCacheOk(s, ev) THEN {} ELSE {"Inv_C08_NoBadCache"})
+                               \cup (IF NoDisplaceOk(s, ev) THEN {} ELSE {"Inv_C08_NoDisplace"})
+                               \cup (IF NoDelayOk(s, ev) THEN {} ELSE {"Inv_C19_NoDelay"})
+                               \cup (IF RenewedOk(s, ev) THEN {} ELSE {"Inv_C19_Renewed"})))
              /\ answered' = answered \cup {ev.qn}
              /\ seen' = IF ev.ok /\ RespTok(ev) # 0 /\ RespTok(ev) \notin DOMAIN seen THEN With(seen, RespTok(ev), Shape(ev)) ELSE seen
-          /\ UNCHANGED <<cfg, q, upsent, upq, stores, pf, fwd>>
+          /\ UNCHANGED <<cfg, q, upsent, upq, stores, pf, fwd, outst>>
 
 \* no usable response: a violation for a decodable query (QR=0) unless the scenario says the
 \* client was expected to be refused at connection level (field "mayrefuse" of the send)
 ClNone == /\ IsEvent("cl.none")
           /\ LET ev == Trace[l]  s == q[ev.qn] IN
              Report(l, IF ~s.qr /\ ~(Has(s, "mayrefuse") /\ s.mayrefuse) THEN {"Inv_C03_Answered"} ELSE {})
-          /\ UNCHANGED <<cfg, q, answered, upsent, upq, stores, pf, fwd, seen>>
+          /\ UNCHANGED <<cfg, q, answered, upsent, upq, stores, pf, fwd, seen, outst>>
 
 \* ---------------------------------------------------------------- upstreams
 AskedBy(n, c, t) == \E k \in DOMAIN q : LowerName(q[k].name) = n /\ q[k].cls = c /\ q[k].typ = t /\ Supported(q[k])
@@ -159,6 +177,11 @@ EcsOk(ev) ==
          IF ev.ecs THEN \E a \in srcs : a.fam # 0 /\ EcsOption(a) = [fam |-> ev.ecsfam, src |-> ev.ecssrc, scope |-> ev.ecsscope, addr |-> ev.ecsaddr]
          ELSE \E a \in srcs : a.fam = 0
 
+Outst(k) == IF k \in DOMAIN outst THEN outst[k] ELSE 0
+\* a cache entry for this question is live (with more than the clock granularity left) at time t
+LiveEntryAt(n, c, ty, t) == \E st \in AllStores : st.name = n /\ st.cls = c /\ st.typ = ty /\ ~st.tc
+                                                  /\ st.stored + 50 < t /\ t + 1000 + 50 < st.expire
+
 UpRecv == /\ IsEvent("up.recv")
           /\ LET ev == Trace[l]  d == Dec(ev.name) IN
              /\ Report(l, (IF d.kind = "forward" /\ d.up = ev.up THEN {} ELSE {"Inv_C10_OnlySelected"})
@@ -167,28 +190,33 @@ UpRecv == /\ IsEvent("up.recv")
                              THEN {} ELSE {"Inv_C10_ExactQuestion"})
                        \cup (IF ev.nopt = 1 /\ ev.nar = 1 /\ (\A i \in 1..Len(ev.optcodes) : ev.optcodes[i] = 8) /\ Len(ev.optcodes) <= 1
                              THEN {} ELSE {"Inv_C12_UpOpt"})
-                       \cup (IF EcsOk(ev) THEN {} ELSE {"Inv_C12_Ecs"}))
+                       \cup (IF EcsOk(ev) THEN {} ELSE {"Inv_C12_Ecs"})
+                       \cup (IF LiveEntryAt(ev.name, ev.cls, ev.typ, ev.t) /\ Outst(<<ev.name, ev.cls, ev.typ>>) >= 1
+                             THEN {"Inv_C19_SingleUp"} ELSE {}))
              /\ upq' = upq \cup {<<ev.up, ev.name, ev.cls, ev.typ>>}
+             /\ outst' = With(outst, <<ev.name, ev.cls, ev.typ>>, Outst(<<ev.name, ev.cls, ev.typ>>) + 1)
           /\ UNCHANGED <<cfg, q, answered, upsent, stores, pf, fwd, seen>>
 
 UpSend == /\ IsEvent("up.send")
           /\ upsent' = With(upsent, Trace[l].tok, Trace[l])
+          /\ LET k == <<Trace[l].name, Trace[l].cls, Trace[l].typ>> IN
+             outst' = With(outst, k, IF Outst(k) > 0 THEN Outst(k) - 1 ELSE 0)
           /\ UNCHANGED <<cfg, q, answered, upq, stores, pf, fwd, seen>>
 
 \* ---------------------------------------------------------------- hooks
 RtRule == /\ IsEvent("rt.rule")
           /\ Report(l, IF Trace[l].idx = FirstMatch(cfg.rules, cfg.sets, Trace[l].name) THEN {} ELSE {"Inv_C10_FirstMatch"})
-          /\ UNCHANGED <<cfg, q, answered, upsent, upq, stores, pf, fwd, seen>>
+          /\ UNCHANGED <<cfg, q, answered, upsent, upq, stores, pf, fwd, seen, outst>>
 
 RtFwd == /\ IsEvent("rt.fwd")
          /\ LET ev == Trace[l] IN
             fwd' = With(fwd, ev.name, (IF ev.name \in DOMAIN fwd THEN fwd[ev.name] ELSE {}) \cup {ev.remote})
-         /\ UNCHANGED <<cfg, q, answered, upsent, upq, stores, pf, seen>>
+         /\ UNCHANGED <<cfg, q, answered, upsent, upq, stores, pf, seen, outst>>
 
 \* a request for which no rule matched must not carry a rule index
 RtDone == /\ IsEvent("rt.done")
-          /\ UNCHANGED <<cfg, q, answered, upsent, upq, stores, pf, fwd, seen>>
-RtReq == IsEvent("rt.req") /\ UNCHANGED <<cfg, q, answered, upsent, upq, stores, pf, fwd, seen>>
+          /\ UNCHANGED <<cfg, q, answered, upsent, upq, stores, pf, fwd, seen, outst>>
+RtReq == IsEvent("rt.req") /\ UNCHANGED <<cfg, q, answered, upsent, upq, stores, pf, fwd, seen, outst>>
 
 \* C07: the key under which the cache is consulted / filled is a function of exactly
 \* (name, class, type, client group)
@@ -200,20 +228,20 @@ CacheGet == /\ IsEvent("cache.get")
                IN Report(l, (IF ev.key = KeyBytes(ev.name, ev.cls, ev.typ, ev.mark) THEN {} ELSE {"Inv_C07_Key"})
                          \cup (IF hitsOk THEN {} ELSE {"Inv_C07_KeyEq"})
                          \cup (IF ev.mark = Group(ev.remote) THEN {} ELSE {"Inv_C07_Group"}))
-            /\ UNCHANGED <<cfg, q, answered, upsent, upq, stores, pf, fwd, seen>>
+            /\ UNCHANGED <<cfg, q, answered, upsent, upq, stores, pf, fwd, seen, outst>>
 
 CacheStore == /\ IsEvent("cache.store")
               /\ LET ev == Trace[l] IN
                  /\ Report(l, (IF ev.key = KeyBytes(ev.name, ev.cls, ev.typ, ev.mark) THEN {} ELSE {"Inv_C07_Key"})
                            \cup (IF ev.tc THEN {"Inv_C08_NoStoreTc"} ELSE {})
-                           \cup (IF ev.tok \in DOMAIN upsent /\ ev.expire - ev.stored <= LifetimeMs(upsent[ev.tok], cfg.maxttl) + 5
+                           \cup (IF ev.tok \in DOMAIN upsent /\ ev.expire - ev.stored <= Max2(LifetimeMs(upsent[ev.tok], cfg.maxttl), 1000) + 5
                                  THEN {} ELSE IF ev.tok \in DOMAIN upsent THEN {"Inv_C08_Lifetime"} ELSE {})
                            \cup (IF ev.neg = (ev.rcode # 0) THEN {} ELSE {"Inv_C08_NoDisplace"})
                            \cup (IF ev.tok \in DOMAIN upsent /\ ~(upsent[ev.tok].name = ev.name /\ upsent[ev.tok].cls = ev.cls /\ upsent[ev.tok].typ = ev.typ)
                                  THEN {"Inv_C07_StoreOwnKey"} ELSE {}))
                  /\ stores' = With(stores, ev.key, (IF ev.key \in DOMAIN stores THEN stores[ev.key] ELSE <<>>) \o <<ev>>)
-              /\ UNCHANGED <<cfg, q, answered, upsent, upq, pf, fwd, seen>>
-CacheStored == IsEvent("cache.stored") /\ UNCHANGED <<cfg, q, answered, upsent, upq, stores, pf, fwd, seen>>
+              /\ UNCHANGED <<cfg, q, answered, upsent, upq, pf, fwd, seen, outst>>
+CacheStored == IsEvent("cache.stored") /\ UNCHANGED <<cfg, q, answered, upsent, upq, stores, pf, fwd, seen, outst>>
 
 \* C19: at most one refresh in flight per (question, client group)
 PfReserve == /\ IsEvent("pf.reserve")
@@ -221,20 +249,20 @@ PfReserve == /\ IsEvent("pf.reserve")
                 /\ Report(l, IF ev.ok /\ ev.key \in pf THEN {"Inv_C19_Single"}
                              ELSE IF ~ev.ok /\ ev.key \notin pf THEN {"Inv_C19_SpuriousDup"} ELSE {})
                 /\ pf' = IF ev.ok THEN pf \cup {ev.key} ELSE pf
-             /\ UNCHANGED <<cfg, q, answered, upsent, upq, stores, fwd, seen>>
+             /\ UNCHANGED <<cfg, q, answered, upsent, upq, stores, fwd, seen, outst>>
 PfDone == /\ IsEvent("pf.done")
           /\ pf' = pf \ {Trace[l].key}
-          /\ UNCHANGED <<cfg, q, answered, upsent, upq, stores, fwd, seen>>
+          /\ UNCHANGED <<cfg, q, answered, upsent, upq, stores, fwd, seen, outst>>
 
 \* C10: a configuration naming an unknown upstream / domain-set tag, repeating a tag or containing an
 \* unknown key is rejected at start-up
 ValidConfig(ev) == ~(ev.unkfwd \/ ev.unkset \/ ev.dupup \/ ev.dupset \/ ev.unkkey)
 Boot == /\ IsEvent("boot")
         /\ Report(l, IF Trace[l].started = ValidConfig(Trace[l]) THEN {} ELSE {"Inv_C10_StrictConfig"})
-        /\ UNCHANGED <<cfg, q, answered, upsent, upq, stores, pf, fwd, seen>>
+        /\ UNCHANGED <<cfg, q, answered, upsent, upq, stores, pf, fwd, seen, outst>>
 
 Other == (IsEvent("lim.cl") \/ IsEvent("note") \/ IsEvent("up.recv.bad"))
-         /\ UNCHANGED <<cfg, q, answered, upsent, upq, stores, pf, fwd, seen>>
+         /\ UNCHANGED <<cfg, q, answered, upsent, upq, stores, pf, fwd, seen, outst>>
 
 Next == Cfg \/ ClSend \/ ClRecv \/ ClNone \/ UpRecv \/ UpSend \/ RtRule \/ RtFwd \/ RtDone \/ RtReq
         \/ Boot \/ CacheGet \/ CacheStore \/ CacheStored \/ PfReserve \/ PfDone \/ Other
